@@ -13,6 +13,7 @@ T = {
  "C09": ("twin-run differential with a constructed drain window (paused twin vs plain twin with identical completion order)", "For generated definitions, outcome tables and pause positions the paused twin and the plain twin receive the same completion reports in the same order; no offers while pausing/paused, paused exactly at the last report, same held-back work, same final status/errors/executed/output.", "output compared on variables with <= 1 publish event; executed sets on success only; R1 orders excluded; R18 matched"),
  "C10": ("stateful generation with one cancel at a generated position + ledger/model invariant", "Cancellation invariant (no offers, canceling/canceled by ledger, final canceled, output renders) on generated histories.", "definitions cannot fail expressions (C11 owns that); dormant != in flight"),
  "C19": ("cross-process differential replay under different PYTHONHASHSEED values + idempotence probe at every poll point", "Generated definitions (accepted and rejected mutants) and histories replayed in 4 interpreters with different hash seeds, digests compared step by step; three consecutive get_next_tasks() compared at every poll point with state diff.", "children use the same library-free driver; canonical JSON for objects, ordered comparison for lists"),
+ "C11": ("exhaustive fault-injection matrix (position x failure kind x language x history variant) + generated hosts with a planted failing expression", "Every expression position, every failure kind that inspection lets through, both languages, at every kind of history point where that position is evaluated, enumerated completely; plus random hosts/schedules.", "clean-up tasks beside a fail command may still be offered (C04's documented exception)"),
  "C12": ("generated item lists/concurrency/outcomes/interleavings with an item-level ledger oracle", "With-items task driven under generated interleavings with pause/resume/cancel; item ledger checks once/in order/window/value/result order/iff-succeeded.", "item RUNNING is reported at dispatch, atomically with the poll"),
  "C13": ("generated retry policies/commands x per-attempt outcome sequences; engine's retry decisions validated against a reference model + state-diff oracle per retried attempt", "Every observed retry must be allowed by the model (count, condition, workflow active); delays checked on offers; the retrying call may not publish, create records, stage successors or change status; later offers justified by the due ledger.", "upper-bound reading of the statement (declined retries are counted, not alarmed)"),
  "C14": ("generated definitions vs independent reference graph construction + metamorphic declaration-order permutations + serialisation round trip", "Composer output compared as sets of nodes/edges/keys/attributes with a reference built from the IR; every or 7 sampled permutations of the declaration order; round trip.", "the `splits` node attribute is not part of the statement and not compared"),
